@@ -269,6 +269,18 @@ def add_targets(E, spec, pid, classes=(GP, TPc)):
             t, fut = h["g_T"], h["g_F"]
             return z3.Implies(z3.Length(h["buffer"].z) > MAXBODY, z3.And(ctx.getf(fut, "g_done").z, ctx.getf(t, "g_closed").z))
 
+        def dr_within_cap(ctx, old, args, outcome):
+            """a 2x response is finished inside data_received only because it exceeds the cap: up to the cap it keeps being buffered"""
+            if outcome[0] != "return":
+                return None
+            p, data = args
+            h = ctx.heap[p.oid]
+            fut = h["g_F"]
+            status = env.field_z(ctx, ctx.heap, p, "status", z3.Int("self.status"))
+            newly_done = z3.And(z3.Not(old.snap[fut.oid]["g_done"].z), ctx.getf(fut, "g_done").z)
+            ok2x = z3.And(h["header_received"].z, env.present(h.get("status")), status >= 20, status <= 29)
+            return z3.Implies(z3.And(newly_done, ok2x), z3.Length(h["buffer"].z) > MAXBODY)
+
         def dr_nonsuccess_closes(ctx, old, args, outcome):
             if outcome[0] != "return":
                 return None
@@ -282,6 +294,7 @@ def add_targets(E, spec, pid, classes=(GP, TPc)):
             f"{cls}.data_received", make_args=dr_args,
             ensures=[("[INV,C13] invariant preserved (buffer/header/status/meta are functions of the bytes received); only an undecodable header line may raise (UnicodeDecodeError -> connection_lost(exc))", dr_inv),
                      ("[C13] more than the size cap: error set and connection closed", dr_cap),
+                     ("[C13] a 2x response of at most the size cap is never cut off while it arrives", dr_within_cap),
                      ("[C13] a non-2x or unparsable header closes the connection at once", dr_nonsuccess_closes)])
 
         # ---- connection_lost --------------------------------------------------------------------
